@@ -192,9 +192,11 @@ def check_regression(ck, repo):
                   o.kind == "raise", found="returns %r" % (o.value,) if o.kind == "return" else None)
         elif few and stated:
             seen["stated"] += 1
-            want = orc.eval("CE.experiments[0].activation_energy") if False else None
+            want = getattr(orc.eval("CE.experiments[0].activation_energy"), "path", None)
+            own = want[:-len("0].activation_energy")] if isinstance(want, str) and want.endswith("[0].activation_energy") else None
             ok = o.kind == "return" and isinstance(o.value, Num) and o.value.r.single_atom() is not None and \
-                o.value.r.single_atom().name.endswith(".activation_energy")
+                o.value.r.single_atom().name.endswith(".activation_energy") and own is not None and \
+                o.value.r.single_atom().name.startswith(own)   # an element of the component's OWN experiments
             ck.ob("M3", f.qualname, "single experiment with a stated activation energy -> that value", where, ok,
                   found=repr(o.value)[:200] if o.kind == "return" else "raises")
         elif not few:
